@@ -26,7 +26,7 @@ ASSUMPTIONS = ['total rtol 1e-9 (the estimated total is taken from the harness\'
                'projections are tuples and queries explicit matrices (PublicInference has no fix_measurements step)']
 PLAN = {
     'quick': dict(cases=320, budget_s=75, case_timeout=300, min_cases=80),
-    'thorough': dict(cases=15000, budget_s=1800, case_timeout=600, min_cases=3000),
+    'thorough': dict(cases=6000, budget_s=900, case_timeout=600, min_cases=1000),
 }
 
 
